@@ -47,7 +47,7 @@ are `sorted(...)` rows. The obligation
 `sites_registered` (Proofs/C10.lean) says every site the scan finds in the live tree is listed. -/
 
 inductive SiteKind
-  | join | firstSuccess | defNodes | tryDefNodes | orBound | printSeq             -- order can show
+  | join | firstSuccess | defNodes | tryDefNodes | orBound | printSeq | payloadIter -- order can show
   | anyAll | setBuild | lookupMap | singleton | sortedJoin | sortedFirstFail | emit | closure
   deriving DecidableEq, Repr
 
@@ -67,8 +67,13 @@ def modelledSites : List (String × String × String × SiteKind × String) := [
   ("pyanalyze/name_check_visitor.py", "NameCheckVisitor._check_function_unused_vars", "passed-to-_all_names_unused:all_unused_nodes", .anyAll, "-"),
   ("pyanalyze/name_check_visitor.py", "NameCheckVisitor._check_function_unused_vars", "passed-to-_all_names_unused:all_unused_nodes#1", .anyAll, "-"),
   ("pyanalyze/name_check_visitor.py", "NameCheckVisitor._constraint_from_compare_op", "next-iter:predicate_types", .singleton, "-"),
+  -- `x in <container literal>`: the payload of the container's KnownValue; a set payload is sorted first
+  -- (c06bd97), any other payload is a sequence; only the types of the members are looked at here
+  ("pyanalyze/name_check_visitor.py", "NameCheckVisitor._constraint_from_compare_op", "payload-iter:other_val", .setBuild, "-"),
   ("pyanalyze/name_check_visitor.py", "NameCheckVisitor._maybe_show_missing_f_error", "anyall:names", .anyAll, "-"),
   ("pyanalyze/name_check_visitor.py", "NameCheckVisitor.constraint_from_condition", "passed-to-_check_boolability:disabled", .anyAll, "-"),
+  -- … and here the members become the narrowed union: a sorted list when the payload was a set (`siteInSet`)
+  ("pyanalyze/predicates.py", "InPredicate.__call__", "payload-iter:self.pattern_vals", .sortedJoin, "-"),
   ("pyanalyze/signature.py", "Signature.check_call_with_bound_args", "passed-to-resolve_bounds_map:self.all_typevars", .lookupMap, "-"),
   ("pyanalyze/signature.py", "Signature.get_default_return", "dictbuild:self.all_typevars", .lookupMap, "-"),
   -- text of an InvalidSignature exception; no source program reaches it
@@ -154,6 +159,142 @@ def modelledCaches : List (String × String × String × CacheKind) := [
 def cachesRegistered (scanned : List (String × String × String)) : Bool :=
   scanned.all fun s => modelledCaches.any fun m => m.1 == s.1 && m.2.1 == s.2.1 && m.2.2.1 == s.2.2
 
+/-! ### The registry of process-level state
+
+One row per module-level name bound to a mutable container or to an instance of a class with
+container fields, per class-level mutable attribute and per `lru_cache` / `cache` /
+`cached_per_instance` function of pyanalyze (scan of every non-test module;
+`Generated/CacheSites.lean`, `scannedProcState`). Kinds:
+
+* `constTable` / `config`: written at import time only — the harness requires the whole container
+  to render the same after every program;
+* `memo`: a process-level memo table — entries immutable after insertion, keys must be values or
+  objects the entry keeps alive (the harness checks that an address-like key component still
+  belongs to a live object);
+* `memoFunction`: a memoising decorator (keyed by argument values);
+* `registry`: filled by decorators / class definitions while a module is imported, keyed by
+  qualified names;
+* `accumulator`: collects output. -/
+
+inductive ProcKind | constTable | config | memo | memoFunction | registry | accumulator
+  deriving DecidableEq, Repr
+
+def modelledProcState : List (String × String × ProcKind) := [
+  ("pyanalyze/annotations.py", "_CONTEXT_MANAGER_TYPES", .constTable),
+  ("pyanalyze/arg_spec.py", "_GET_OVERLOADS", .constTable),
+  ("pyanalyze/arg_spec.py", "TYPING_OBJECTS_SAFE_TO_CALL", .constTable),
+  ("pyanalyze/arg_spec.py", "_BUILTIN_KNOWN_SIGNATURES", .constTable),
+  ("pyanalyze/arg_spec.py", "IgnoredCallees.default_value", .config),
+  ("pyanalyze/arg_spec.py", "ClassesSafeToInstantiate.default_value", .config),
+  ("pyanalyze/arg_spec.py", "FunctionsSafeToCall.default_value", .config),
+  ("pyanalyze/arg_spec.py", "KnownSignatures.default_value", .config),
+  ("pyanalyze/asynq_checker.py", "NonAsynqModules.default_value", .config),
+  ("pyanalyze/attributes.py", "TreatClassAttributeAsAny.default_value", .config),
+  ("pyanalyze/attributes.py", "ClassAttributeTransformer.default_value", .config),
+  ("pyanalyze/attributes.py", "KnownAttributeHook.default_value", .config),
+  ("pyanalyze/boolability.py", "_TRUE_BOOLABILITIES", .constTable),
+  ("pyanalyze/boolability.py", "_FALSE_BOOLABILITIES", .constTable),
+  ("pyanalyze/checker.py", "EXCLUDED_PROTOCOL_MEMBERS", .constTable),
+  ("pyanalyze/error_code.py", "ErrorCode", .registry),
+  ("pyanalyze/error_code.py", "DISABLED_IN_TESTS", .constTable),
+  ("pyanalyze/error_code.py", "DISABLED_BY_DEFAULT", .constTable),
+  -- filled by @overload / @evaluated while a checked module is imported; keyed by qualified name
+  ("pyanalyze/extensions.py", "_overloads", .registry),
+  ("pyanalyze/extensions.py", "_type_evaluations", .registry),
+  ("pyanalyze/find_unused.py", "_used_objects", .registry),
+  ("pyanalyze/find_unused.py", "_test_helper_objects", .registry),
+  ("pyanalyze/format_strings.py", "_NUMERIC_CONVERSION_TYPES", .constTable),
+  ("pyanalyze/format_strings.py", "_FORMAT_STRING_CONVERSIONS", .constTable),
+  ("pyanalyze/functions.py", "_safe_decorators", .constTable),
+  ("pyanalyze/functions.py", "AsynqDecorators.default_value", .config),
+  ("pyanalyze/functions.py", "AsyncProxyDecorators.default_value", .config),
+  ("pyanalyze/importer.py", "directory_has_init", .memoFunction),
+  ("pyanalyze/name_check_visitor.py", "BINARY_OPERATION_TO_DESCRIPTION_AND_METHOD", .constTable),
+  ("pyanalyze/name_check_visitor.py", "METHODS_ALLOWING_NOTIMPLEMENTED", .constTable),
+  ("pyanalyze/name_check_visitor.py", "UNARY_OPERATION_TO_DESCRIPTION_AND_METHOD", .constTable),
+  ("pyanalyze/name_check_visitor.py", "COMPARATOR_TO_OPERATOR", .constTable),
+  ("pyanalyze/name_check_visitor.py", "_NEG_OPERATOR_TO_AST", .constTable),
+  ("pyanalyze/name_check_visitor.py", "AST_TO_REVERSE", .constTable),
+  ("pyanalyze/name_check_visitor.py", "_MIRRORED_COMPARATOR", .constTable),
+  ("pyanalyze/name_check_visitor.py", "SAFE_DECORATORS_FOR_ARGSPEC_TO_RETVAL", .constTable),
+  ("pyanalyze/name_check_visitor.py", "UnimportableModules.default_value", .config),
+  ("pyanalyze/name_check_visitor.py", "ExtraBuiltins.default_value", .config),
+  ("pyanalyze/name_check_visitor.py", "IgnoredEndOfReference.default_value", .config),
+  ("pyanalyze/name_check_visitor.py", "IgnoredForIncompatibleOverride.default_value", .config),
+  ("pyanalyze/name_check_visitor.py", "IgnoredUnusedAttributes.default_value", .config),
+  ("pyanalyze/name_check_visitor.py", "IgnoredUnusedClassAttributes.default_value", .config),
+  ("pyanalyze/name_check_visitor.py", "CheckForDuplicateValues.default_value", .config),
+  ("pyanalyze/name_check_visitor.py", "AllowDuplicateValues.default_value", .config),
+  ("pyanalyze/name_check_visitor.py", "TransformGlobals.default_value", .config),
+  ("pyanalyze/name_check_visitor.py", "IgnoredTypesForAttributeChecking.default_value", .config),
+  ("pyanalyze/node_visitor.py", "_lines", .memoFunction),
+  ("pyanalyze/node_visitor.py", "has_file_level_ignore", .memoFunction),
+  ("pyanalyze/node_visitor.py", "BaseNodeVisitor._changes_for_fixer", .accumulator),
+  ("pyanalyze/options.py", "get_all_error_codes", .memoFunction),
+  ("pyanalyze/options.py", "ConfigOption.registry", .registry),
+  ("pyanalyze/options.py", "StringSequenceOption.default_value", .config),
+  ("pyanalyze/patma.py", "_SPECIAL_CLASS_PATTERN_TYPES", .constTable),
+  ("pyanalyze/predicates.py", "_OPERATOR", .constTable),
+  ("pyanalyze/runtime.py", "_get_checker", .memoFunction),
+  ("pyanalyze/safe.py", "_typing_name_cache", .memo),
+  ("pyanalyze/signature.py", "KIND_TO_ALLOWED_PREVIOUS", .constTable),
+  ("pyanalyze/signature.py", "CAN_HAVE_DEFAULT", .constTable),
+  -- the singleton whose `resolution_cache` every FunctionScope of the process shares; keyed by the
+  -- `_LookupContext` (variable name, AST node object, visitor state): the node is held by the key
+  ("pyanalyze/stacked_scopes.py", "_empty_constrained", .memo),
+  ("pyanalyze/type_evaluation.py", "_OP_TO_DATA", .constTable),
+  ("pyanalyze/typeshed.py", "PROPERTY_LIKE", .constTable),
+  ("pyanalyze/typeshed.py", "_TYPING_ALIASES", .constTable),
+  ("pyanalyze/typeshed.py", "_get_info_for_name", .memoFunction),
+  ("pyanalyze/typeshed.py", "_DummyErrorContext.all_failures", .accumulator)
+]
+
+def procStateRegistered (scanned : List (String × String × String)) : Bool :=
+  scanned.all fun s => modelledProcState.any fun m => m.1 == s.1 && m.2.1 == s.2.1
+
+/-! ### The registry of identity keys
+
+Every expression that uses `id(…)` (an address) as, or inside, a key / hash / membership test. An
+address identifies an object only while the object is alive; each row says why that holds:
+
+* `holdsObject`: the entry (or the container the key goes into) holds the object itself;
+* `transient`: the table lives only during one call in which the object is alive;
+* `identityHash`: `__hash__` of an object hashed by identity (the object is the key).
+
+A process- or Checker-level table keyed by the address of an object it does not hold is the defect
+`address_key_stale_witness` (Props/C10.lean) exhibits; the hypothesis "keys are values" of
+`process_history_independent_partial` is what this registry stands for. -/
+
+inductive IdKeyKind | holdsObject | transient | identityHash
+  deriving DecidableEq, Repr
+
+def modelledIdKeys : List (String × String × String × IdKeyKind) := [
+  -- the set is filled and emptied around one evaluation, during which `obj` is alive
+  ("pyanalyze/annotations.py", "Context.add_evaluation", "obj_id = id(obj)", .transient),
+  ("pyanalyze/annotations.py", "Context.is_being_evaluted", "id(obj) in self._being_evaluated", .transient),
+  -- per-visitor table; the entry is `(return_value, sig)` and a hit is accepted only if `sig is saved_sig`
+  ("pyanalyze/name_check_visitor.py", "NameCheckVisitor._set_argspec_to_retval", "self._argspec_to_retval[id(sig)]", .holdsObject),
+  ("pyanalyze/name_check_visitor.py", "NameCheckVisitor.get_local_return_value", "self._argspec_to_retval.get(id(sig), (None, None))", .holdsObject),
+  -- `processed` is a local dict of one call of `make`; it maps the address to the constraint itself
+  ("pyanalyze/stacked_scopes.py", "AndConstraint.make", "id(subcons) in processed", .transient),
+  ("pyanalyze/stacked_scopes.py", "AndConstraint.make", "processed[id(cons)]", .holdsObject),
+  ("pyanalyze/stacked_scopes.py", "AndConstraint.make", "processed[id(subcons)]", .holdsObject),
+  ("pyanalyze/stacked_scopes.py", "EquivalentConstraint.make", "processed[id(cons)]", .holdsObject),
+  ("pyanalyze/stacked_scopes.py", "EquivalentConstraint.make", "processed[id(subcons)]", .holdsObject),
+  ("pyanalyze/stacked_scopes.py", "OrConstraint.make", "id(subcons) in processed", .transient),
+  ("pyanalyze/stacked_scopes.py", "OrConstraint.make", "inverted = id(constraint.invert())", .transient),
+  ("pyanalyze/stacked_scopes.py", "OrConstraint.make", "processed[id(cons)]", .holdsObject),
+  ("pyanalyze/stacked_scopes.py", "OrConstraint.make", "processed[id(subcons)]", .holdsObject),
+  ("pyanalyze/value.py", "CallValue.__hash__", "return id(self)", .identityHash),
+  ("pyanalyze/value.py", "ConstraintExtension.__hash__", "return id(self)", .identityHash),
+  -- hash of a KnownValue whose payload is unhashable: the value object holds the payload
+  ("pyanalyze/value.py", "KnownValue.__hash__", "hash((type(self.val), id(self.val)))", .holdsObject),
+  ("pyanalyze/value.py", "NoReturnConstraintExtension.__hash__", "return id(self)", .identityHash)
+]
+
+def idKeysRegistered (scanned : List (String × String × String)) : Bool :=
+  scanned.all fun s => modelledIdKeys.any fun m => m.1 == s.1 && m.2.1 == s.2.1 && m.2.2.1 == s.2.2
+
 /-! ### Classifying a textual difference between two renderings of the same diagnostic
 
 A message is cut into tokens at the separators of lists and unions; two renderings *differ by
@@ -176,7 +317,7 @@ def D10_orderOnly (a b : String) : Bool := a != b && isPermOf (tokens a) (tokens
 def hasSub (s pat : String) : Bool := (s.splitOn pat).length > 1
 
 /-- The site class a purely order-related difference belongs to. `hint` is the feature of the
-generated program the diagnostic stems from (`try`, `defnodes`); only the two classes whose repair
+generated program the diagnostic stems from (`try`, `defnodes`); only the two order classes whose repair
 was not applied remain — an order-only difference anywhere else is outside every class. -/
 def orderClass (hint a b : String) : String :=
   if !D10_orderOnly a b then "-"
